@@ -73,8 +73,8 @@ let run (op_full : string) (a : string array) : string =
   | "to_str" -> show_res hex (to_str_m (unhex a.(0)))
   | "is_array" -> show_res show_bool (is_array_m (unhex a.(0)))
   | "is_object" -> show_res show_bool (is_object_m (unhex a.(0)))
-  | "exists_all_keys" -> show_res show_bool (exists_all_keys_m (unhex a.(0)) (hexlist a.(1)))
-  | "exists_any_keys" -> show_res show_bool (exists_any_keys_m (unhex a.(0)) (hexlist a.(1)))
+  | "exists_all_keys" -> show_res show_bool (exists_all_keys_w (unhex a.(0)) (hexlist a.(1)))
+  | "exists_any_keys" -> show_res show_bool (exists_any_keys_w (unhex a.(0)) (hexlist a.(1)))
   | "traverse_check_string" -> show_res show_bool (traverse_check_string_m (unhex a.(0)) (unhex a.(1)))
   | "contains" -> show_res show_bool (contains_m (unhex a.(0)) (unhex a.(1)))
   | "array_distinct" -> show_buf prefix (array_distinct_m (unhex a.(0)) prefix)
